@@ -12,15 +12,18 @@
 (* indexes only Min(count, capacity) elements; (3) at the default level        *)
 (* nothing is written anywhere.  The deviation `unguarded` iterates the raw    *)
 (* file count (MarshalZerologArray of CTBOBox) and the deviation `print`       *)
-(* writes to stdout unconditionally on an error path (moov.go).                *)
+(* writes to stdout unconditionally on an error path (moov.go).  The deviation *)
+(* `peeking` computes a log argument from the reader's look-ahead (Peek): when *)
+(* the buffered window ends inside the bytes the decoder still holds a view of *)
+(* (`win`), the refill disturbs the decoder state -- only at enabling levels.  *)
 EXTENDS Integers, Sequences, TLC
 
 CONSTANTS Levels,      \* the 7 levels, ordered: 1 = trace ... 7 = panic (default)
           Sites,       \* sequence of log sites: [lvl, kind \in {"plain","marshal"}, cap]
           Counts,      \* file-declared counts a marshaler may iterate
-          Mode         \* "guarded" | "unguarded" | "print"
+          Mode         \* "guarded" | "unguarded" | "print" | "peeking"
 
-VARIABLES level, wfail, count,   \* configuration and file value (fixed in Init)
+VARIABLES level, wfail, count, win, \* configuration, file value, alignment of the file with the reader's window (fixed in Init)
           i,                     \* decoder step about to be executed (1..Len(Sites)+1)
           st,                    \* result-relevant decoder state (number of decoder steps taken)
           sink, stdout,          \* bytes written to the logger's writer / to the process' stdout
@@ -28,11 +31,11 @@ VARIABLES level, wfail, count,   \* configuration and file value (fixed in Init)
           logged,                \* has the log statement of step i been executed?
           pc
 
-vars == <<level, wfail, count, i, st, sink, stdout, idx, logged, pc>>
+vars == <<level, wfail, count, win, i, st, sink, stdout, idx, logged, pc>>
 N == Len(Sites)
 Min(a, b) == IF a < b THEN a ELSE b
 
-Init == /\ level \in Levels /\ wfail \in BOOLEAN /\ count \in Counts
+Init == /\ level \in Levels /\ wfail \in BOOLEAN /\ count \in Counts /\ win \in BOOLEAN
         /\ i = 1 /\ st = 0 /\ sink = 0 /\ stdout = 0 /\ idx = [used |-> 0, cap |-> 0] /\ logged = FALSE /\ pc = "run"
 
 \* the log statement in front of decoder step i (executed at most once; skipped when the level disables it)
@@ -45,17 +48,18 @@ LogStep == /\ pc = "run" /\ i <= N /\ ~logged
                                  ELSE idx
                 ELSE UNCHANGED <<sink, idx>>
            /\ stdout' = IF Mode = "print" /\ Sites[i].kind = "plain" /\ Sites[i].lvl = 5 THEN stdout + 1 ELSE stdout
-           /\ UNCHANGED <<level, wfail, count, i, st, pc>>
+           /\ st' = IF Mode = "peeking" /\ level <= Sites[i].lvl /\ Sites[i].kind = "plain" /\ Sites[i].lvl = 3 /\ win THEN st + 100 ELSE st
+           /\ UNCHANGED <<level, wfail, count, win, i, pc>>
 \* the decoder step itself: independent of everything the logger did
 DecodeStep == /\ pc = "run" /\ i <= N /\ logged
               /\ st' = st + 1 /\ i' = i + 1 /\ logged' = FALSE
-              /\ UNCHANGED <<level, wfail, count, sink, stdout, idx, pc>>
-Finish == /\ pc = "run" /\ i > N /\ pc' = "done" /\ UNCHANGED <<level, wfail, count, i, st, sink, stdout, idx, logged>>
+              /\ UNCHANGED <<level, wfail, count, win, sink, stdout, idx, pc>>
+Finish == /\ pc = "run" /\ i > N /\ pc' = "done" /\ UNCHANGED <<level, wfail, count, win, i, st, sink, stdout, idx, logged>>
 Stutter == pc = "done" /\ UNCHANGED vars
 Next == LogStep \/ DecodeStep \/ Finish \/ Stutter
 Spec == Init /\ [][Next]_vars /\ WF_vars(LogStep \/ DecodeStep \/ Finish)
 
-TypeOK     == i \in 1..(N+1) /\ st \in 0..N /\ pc \in {"run", "done"}
+TypeOK     == i \in 1..(N+1) /\ st \in Nat /\ pc \in {"run", "done"}
 \* C15: log steps are stuttering steps of the result-relevant state
 LogStutter == [][logged' /\ ~logged => st' = st /\ i' = i]_vars
 \* the outcome is the same function of the input at every level / writer: st at the end is N
